@@ -96,16 +96,35 @@ class Run:
         for sig, vs in by_sig.items():
             (known_hit if sig in open_sigs else new_sigs).append((sig, vs))
 
-        # re-execute before reporting: un-owned nondeterminism must not look like a violation
+        # Re-execute before reporting (in forked children, so that this process stays as it is):
+        # first the failing case alone; if it does not fail alone, the whole shard that produced it
+        # (a violation that needs the calls made earlier in the shard is history-dependent, which is
+        # a genuine violation and reproducible from the shard); only if that does not reproduce
+        # either is it un-owned nondeterminism -> HARNESS-ERROR, never a VIOLATION.
         harness_error = None
+        needs_history: dict[str, bool] = {}
         if replay_fn is not None:
+            from .par import in_child
+            shard_fn = getattr(self, "shard_fn", None)
             for sig, vs in new_sigs[:MAX_REPLAYS_PER_RUN]:
                 try:
-                    again = replay_fn(vs[0]["case"])
+                    again = in_child(replay_fn, vs[0]["case"])
                 except Exception as e:  # noqa: BLE001
                     harness_error = f"replay of {sig!r} crashed: {type(e).__name__}: {e}"
                     break
-                if again.get("ok", False):
+                if not again.get("ok", False):
+                    continue
+                reproduced = False
+                if shard_fn is not None and vs[0].get("shard") is not None:
+                    try:
+                        part = in_child(shard_fn, vs[0]["shard"])
+                        reproduced = any(v["signature"] == sig for v in part.get("violations", []))
+                    except Exception as e:  # noqa: BLE001
+                        harness_error = f"shard replay of {sig!r} crashed: {type(e).__name__}: {e}"
+                        break
+                if reproduced:
+                    needs_history[sig] = True
+                else:
                     harness_error = (
                         f"violation {sig!r} did not reproduce on re-execution "
                         f"(first: {vs[0]['observed']!r}, again: {again.get('observed')!r})"
@@ -133,10 +152,15 @@ class Run:
                     for v in vs[1:MAX_EXAMPLES_PER_SIGNATURE]
                 ],
                 "replay": f"./check replay {path}",
+                "needs_history": bool(needs_history.get(sig)),
+                "shard": vs[0].get("shard"),
+                "shard_fn": getattr(getattr(self, "shard_fn", None), "__name__", None),
                 "tree": tree_identity(),
             }, indent=1, ensure_ascii=True, default=repr))
             lines.append(f"VIOLATION property={self.pid} replay={path}")
-            lines.append(f"  signature: {sig}  cases: {len(vs)}")
+            lines.append(f"  signature: {sig}  cases: {len(vs)}" + (
+                "  (history-dependent: fails only after the earlier calls of its shard; the replay "
+                "re-runs the shard)" if needs_history.get(sig) else ""))
             lines.append(f"  first case: {json.dumps(vs[0]['case'], ensure_ascii=True, default=repr)[:400]}")
             lines.append(f"  expected: {vs[0]['expected']!r}  observed: {vs[0]['observed']!r}")
 
